@@ -8,11 +8,14 @@ package main
 
 import (
 	"bytes"
+	"errors"
 	"flag"
 	"fmt"
+	"io"
 	"os"
 	"os/exec"
 	"path/filepath"
+	"sort"
 	"strings"
 
 	"github.com/Tnze/go-mc/save/region"
@@ -92,9 +95,42 @@ func (h *hist) wit(extra map[string]any) any {
 	return m
 }
 
-// checkImage re-opens a crash image and checks every chunk other than `target`.
+// roFile is the backing store of a crash image: re-opening and reading have no business writing to it.
+type roFile struct {
+	b   []byte
+	pos int64
+}
+
+func (f *roFile) Read(p []byte) (int, error) {
+	if f.pos >= int64(len(f.b)) {
+		return 0, io.EOF
+	}
+	n := copy(p, f.b[f.pos:])
+	f.pos += int64(n)
+	return n, nil
+}
+
+func (f *roFile) Write(p []byte) (int, error) {
+	return 0, errors.New("crash image: a write was issued while re-opening or reading")
+}
+
+func (f *roFile) Seek(off int64, whence int) (int64, error) {
+	switch whence {
+	case io.SeekCurrent:
+		off += f.pos
+	case io.SeekEnd:
+		off += int64(len(f.b))
+	}
+	if off < 0 {
+		return 0, errors.New("negative position")
+	}
+	f.pos = off
+	return off, nil
+}
+
+// checkImage re-opens a crash image and checks every chunk other than `target`. The image is only read.
 func checkImage(c *vm.Ctx, img []byte, model map[[2]int][]byte, target [2]int, h *hist, desc map[string]any) bool {
-	f := &inject.RecFile{B: append([]byte{}, img...)}
+	f := &roFile{b: img}
 	var reg *region.Region
 	var err error
 	if c.Guard("crash/load", func() any { return h.wit(desc) }, func() { reg, err = region.Load(f) }) {
@@ -105,7 +141,7 @@ func checkImage(c *vm.Ctx, img []byte, model map[[2]int][]byte, target [2]int, h
 		return false
 	}
 	ok := true
-	c.Guard("crash/read", func() any { return h.wit(desc) }, func() {
+	if c.Guard("crash/read", func() any { return h.wit(desc) }, func() {
 		for z := 0; z < 32 && ok; z++ {
 			for x := 0; x < 32; x++ {
 				k := [2]int{x, z}
@@ -129,23 +165,91 @@ func checkImage(c *vm.Ctx, img []byte, model map[[2]int][]byte, target [2]int, h
 				}
 			}
 		}
-	})
+	}) {
+		return false
+	}
 	return ok
 }
+
+// enumerate turns the recorded physical writes of ONE WriteSector into crash images: every prefix j = 0..m, and for
+// each j < m the next write torn at 512-byte boundaries and at 8 random byte offsets. base is the file before the call,
+// model what every chunk held before it, target the chunk being written. allTears=false thins the 512-byte boundaries
+// of writes longer than 64 KiB (first and last 16 KiB whole, every 8 KiB in between: some 200 images instead of up to
+// 2040, each of which reads every other chunk); shorter writes are always torn at every boundary. It returns the
+// number of images checked, and false when one of them failed.
+func enumerate(c *vm.Ctx, r *vm.Rand, base []byte, writes []inject.PhysWrite, model map[[2]int][]byte, target [2]int, h *hist, allTears bool) (int, bool) {
+	images := 0
+	// img holds prefix j; torn versions of write j are applied to it in increasing order. It is allocated once at the
+	// greatest extent any of the writes reaches (a fresh buffer per growing tear cost gigabytes of garbage for a
+	// limit-sized write, which a 32-bit process did not survive); bytes past len(img) are zero and stay so.
+	extent := len(base)
+	for _, w := range writes {
+		extent = max(extent, int(w.Off)+len(w.Data))
+	}
+	img := make([]byte, len(base), extent)
+	copy(img, base)
+	apply := func(off int64, p []byte) {
+		if end := int(off) + len(p); end > len(img) {
+			img = img[:end] // zero-filled up to here: nothing was ever written past the old length
+		}
+		copy(img[off:], p)
+	}
+	ws := sizes(writes)
+	for j := 0; j <= len(writes); j++ {
+		desc := map[string]any{"writes_total": len(writes), "writes_applied_completely": j, "write_sizes": ws}
+		if !checkImage(c, img, model, target, h, desc) {
+			return images, false
+		}
+		images++
+		if j == len(writes) {
+			break
+		}
+		w := writes[j]
+		var tears []int
+		for t := 512; t < len(w.Data); t += 512 {
+			if !allTears && len(w.Data) > 64<<10 && t > 16<<10 && t < len(w.Data)-16<<10 && t%(8<<10) != 0 {
+				continue
+			}
+			tears = append(tears, t)
+		}
+		for q := 0; q < 8 && len(w.Data) > 1; q++ {
+			tears = append(tears, r.Range(1, len(w.Data)-1))
+		}
+		sort.Ints(tears)
+		for ti, t := range tears {
+			if ti > 0 && tears[ti-1] == t {
+				continue
+			}
+			apply(w.Off, w.Data[:t]) // extends the previous, shorter tear of the same write
+			desc := map[string]any{"writes_total": len(writes), "writes_applied_completely": j, "next_write_torn_after_bytes": t, "write_sizes": ws}
+			if !checkImage(c, img, model, target, h, desc) {
+				return images, false
+			}
+			images++
+			c.Cover("image.torn")
+		}
+		apply(w.Off, w.Data)
+	}
+	return images, true
+}
+
+var limitTornEverywhere bool // quick tier: one limit-sized final write has been torn at every 512-byte boundary
 
 func runCase(c *vm.Ctx, r *vm.Rand, hi int) {
 	writerAt := hi%2 == 1
 	h := &hist{}
 	var rf *inject.RecFile
+	var back io.ReadWriteSeeker // what the library is given (hides or shows WriteAt)
 	var reg *region.Region
 	var err error
 	if writerAt {
 		fa := &inject.RecFileAt{}
-		rf = &fa.RecFile
+		rf, back = &fa.RecFile, fa
 		reg, err = region.CreateWriter(fa)
 		c.Cover("backing.writerat")
 	} else {
 		rf = &inject.RecFile{}
+		back = rf
 		reg, err = region.CreateWriter(rf)
 		c.Cover("backing.seek+write")
 	}
@@ -153,26 +257,100 @@ func runCase(c *vm.Ctx, r *vm.Rand, hi int) {
 		c.Violation("create/error", err.Error(), nil)
 		return
 	}
+	reopen := func(why string) bool {
+		rf.Seek(0, 0)
+		reg2, lerr := region.Load(back)
+		if lerr != nil {
+			c.Violation("history/reopen-fails", "re-opening the file in the middle of a history failed: "+lerr.Error(), h.wit(nil))
+			return false
+		}
+		reg = reg2
+		h.ops = append(h.ops, "reopen (Load)"+why)
+		return true
+	}
 	model := map[[2]int][]byte{}
 	ops := regiongen.Gen(r, r.Range(2, 60), hi%5 == 0)
-	bad := false
-	c.Guard("history", func() any { return h.wit(nil) }, func() {
-		for _, op := range ops {
+	// which writes of the history are crash-enumerated besides the final one: all of them in the thorough tier
+	// ("each WriteSector in generated histories"), three drawn ones in the quick tier
+	var widx []int
+	for i, op := range ops {
+		if op.Kind == "write" && op.Size <= regiongen.MaxOK {
+			widx = append(widx, i)
+		}
+	}
+	chosen := map[int]bool{}
+	for q := 0; q < 3 && len(widx) > 0; q++ {
+		chosen[widx[r.Intn(len(widx))]] = true
+	}
+	images := 0
+	bad, failed := false, false
+	sinceReopen := -1 // writes issued by the current handle since it was loaded; -1: the handle created the file
+	if c.Guard("history", func() any { return h.wit(nil) }, func() {
+		for oi, op := range ops {
 			switch op.Kind {
 			case "write":
-				h.ops = append(h.ops, fmt.Sprintf("WriteSector(%d,%d,%d bytes)", op.X, op.Z, op.Size))
-				if e := reg.WriteSector(op.X, op.Z, regiongen.Payload(op)); e == nil {
-					model[[2]int{op.X, op.Z}] = regiongen.Payload(op)
+				desc := fmt.Sprintf("WriteSector(%d,%d,%d bytes)", op.X, op.Z, op.Size)
+				key := [2]int{op.X, op.Z}
+				enum := op.Size <= regiongen.MaxOK && (c.Thorough() || chosen[oi])
+				var base []byte
+				var before map[[2]int][]byte
+				sub := &hist{final: desc}
+				if enum {
+					base = append([]byte{}, rf.B...)
+					before = make(map[[2]int][]byte, len(model))
+					for k, v := range model {
+						before[k] = v
+					}
+					sub.ops = append([]string{}, h.ops...)
+					rf.Writes, rf.Rec = nil, true
+				}
+				h.ops = append(h.ops, desc)
+				e := reg.WriteSector(op.X, op.Z, regiongen.Payload(op))
+				rf.Rec = false
+				if e == nil {
+					model[key] = regiongen.Payload(op)
 				} else if op.Size <= regiongen.MaxOK {
 					bad = true
 					return
 				}
+				if sinceReopen >= 0 {
+					sinceReopen++
+				}
+				if enum && e == nil {
+					writes := rf.Writes
+					rf.Writes = nil
+					n, ok := enumerate(c, r, base, writes, before, key, sub, false)
+					images += n
+					if !ok {
+						failed = true
+						return
+					}
+					c.CoverN("physical-writes-recorded", int64(len(writes)))
+					c.Cover("history.write-enumerated")
+					if sinceReopen >= 0 {
+						c.Cover("history.write-enumerated.by-reloaded-handle")
+					}
+				}
 			case "pad":
 				h.ops = append(h.ops, "PadToFullSector")
 				reg.PadToFullSector()
+			case "reopen":
+				// from here on the occupancy map in use is one that Load rebuilt from the header (in two thirds of
+				// the cases; the others keep the handle that created the file, as all cases used to)
+				if hi%3 == 0 {
+					continue
+				}
+				if !reopen("") {
+					failed = true
+					return
+				}
+				sinceReopen = 0
+				c.Cover("history.reopen")
 			}
 		}
-	})
+	}) || failed {
+		return
+	}
 	if bad {
 		return // C14's business
 	}
@@ -191,6 +369,9 @@ func runCase(c *vm.Ctx, r *vm.Rand, hi int) {
 	if len(keys) == 0 {
 		kind = 4
 	}
+	if hi%5 == 0 && r.Intn(2) == 0 {
+		kind = 5
+	}
 	switch kind {
 	case 0: // in place: same sector count
 		k := keys[r.Intn(len(keys))]
@@ -202,7 +383,7 @@ func runCase(c *vm.Ctx, r *vm.Rand, hi int) {
 	case 1: // grow
 		k := keys[r.Intn(len(keys))]
 		fin.X, fin.Z = k[0], k[1]
-		fin.Size = len(model[k]) + 4096*r.Range(1, 4)
+		fin.Size = min(regiongen.MaxOK, len(model[k])+4096*r.Range(1, 4))
 		c.Cover("final.grow")
 	case 2: // shrink
 		k := keys[r.Intn(len(keys))]
@@ -213,10 +394,35 @@ func runCase(c *vm.Ctx, r *vm.Rand, hi int) {
 		fin.X, fin.Z = r.Intn(6), r.Intn(6)
 		fin.Size = []int{100, 4092, 4093, 9000, 20000}[r.Intn(5)]
 		c.Cover("final.new-or-overwrite")
+	case 5: // at the limit: 255 or 254 sectors, for an existing chunk (relocation of the largest run) or a new one
+		if len(keys) > 0 && r.Bool() {
+			k := keys[r.Intn(len(keys))]
+			fin.X, fin.Z = k[0], k[1]
+		} else {
+			fin.X, fin.Z = r.Intn(6), r.Intn(6)
+		}
+		fin.Size = []int{regiongen.MaxOK, regiongen.MaxOK - 4096}[r.Intn(2)]
+		c.Cover("final.near-limit")
 	default:
 		fin.X, fin.Z = r.Intn(32), r.Intn(32)
 		fin.Size = r.Range(1, 30000)
 		c.Cover("final.random")
+	}
+	// in half of the cases the handle that issues the interrupted write has just been loaded from the file: its
+	// occupancy map is the one Load rebuilt, and the first thing it does is free and search
+	if r.Bool() {
+		if !reopen(" right before the interrupted write") {
+			return
+		}
+		sinceReopen = 0
+	}
+	switch {
+	case sinceReopen == 0:
+		c.Cover("final.first-write-of-reloaded-handle")
+	case sinceReopen > 0:
+		c.Cover("final.by-reloaded-handle")
+	default:
+		c.Cover("final.by-creating-handle")
 	}
 	target := [2]int{fin.X, fin.Z}
 	h.final = fmt.Sprintf("WriteSector(%d,%d,%d bytes)", fin.X, fin.Z, fin.Size)
@@ -233,38 +439,17 @@ func runCase(c *vm.Ctx, r *vm.Rand, hi int) {
 	}
 	writes := rf.Writes
 	c.CoverN("physical-writes-recorded", int64(len(writes)))
-	images := 0
-	// every prefix j = 0..m, the last write torn
-	for j := 0; j <= len(writes); j++ {
-		img := append([]byte{}, base...)
-		for i := 0; i < j && i < len(writes); i++ {
-			inject.ApplyWrite(&img, writes[i].Off, writes[i].Data)
-		}
-		desc := map[string]any{"writes_total": len(writes), "writes_applied_completely": j, "write_sizes": sizes(writes)}
-		if !checkImage(c, img, model, target, h, desc) {
-			return
-		}
-		images++
-		if j < len(writes) {
-			w := writes[j]
-			var tears []int
-			for t := 512; t < len(w.Data); t += 512 {
-				tears = append(tears, t)
-			}
-			for q := 0; q < 8 && len(w.Data) > 1; q++ {
-				tears = append(tears, r.Range(1, len(w.Data)-1))
-			}
-			for _, t := range tears {
-				timg := append([]byte{}, img...)
-				inject.ApplyWrite(&timg, w.Off, w.Data[:t])
-				desc := map[string]any{"writes_total": len(writes), "writes_applied_completely": j, "next_write_torn_after_bytes": t, "write_sizes": sizes(writes)}
-				if !checkImage(c, timg, model, target, h, desc) {
-					return
-				}
-				images++
-				c.Cover("image.torn")
-			}
-		}
+	// every prefix j = 0..m, the next write torn; for limit-sized writes the 512-byte boundaries are thinned, except
+	// for one case on one shard (quick) or a quarter of those cases (thorough)
+	allTears := kind != 5
+	if !allTears && ((c.Thorough() && hi%20 == 0) || (c.Shard == 1%c.NShards && !limitTornEverywhere)) {
+		allTears, limitTornEverywhere = true, true
+		c.Cover("final.near-limit.torn-at-every-boundary")
+	}
+	n, ok := enumerate(c, r, base, writes, model, target, h, allTears)
+	images += n
+	if !ok {
+		return
 	}
 	c.EvalN(int64(images), vm.HashStr("case", fmt.Sprint(c.Shard, hi)), true)
 	c.Cover("case.complete")
